@@ -59,7 +59,7 @@ pub enum TransactionExecutionResult {
 #[derive(Debug)]
 pub enum ExecutorError {
     MintIsNotLastTransaction, TransactionIdCollision(TxId), CoinbaseAmountMismatch, CoinbaseGasPriceMismatch,
-    MintHasUnexpectedIndex, MintMismatch, FeeOverflow, GasOverflow(String, u64, u64), TxSizeOverflow, Storage,
+    MintHasUnexpectedIndex, MintMismatch, FeeOverflow, GasOverflow(String, u64, u64), TxSizeOverflow, Storage, TooManyTransactions,
 }
 pub type ExecutorResult<T> = Result<T, ExecutorError>;
 #[derive(Debug)] pub struct StorageError;
@@ -181,6 +181,38 @@ impl BlockExecutorC {
     fn spend_input_utxos<T>(&self, _i: &[u8], _s: &mut TxStorageTransaction<T>, _reverted: bool, _d: &mut ExecutionData) -> ExecutorResult<()> { self.steps.run(3) }
     fn persist_output_utxos<T>(&self, _h: BlockHeight, _d: &mut ExecutionData, _id: &TxId, _s: &mut TxStorageTransaction<T>, _i: &[u8], _o: &[u8]) -> ExecutorResult<()> { self.steps.run(4) }
     fn update_execution_data<Tx: Chargeable>(&self, _tx: &Tx, _d: &mut ExecutionData, _r: Arc<Vec<Receipt>>, _g: Word, _rev: bool, _s: ProgramState, _id: TxId) -> ExecutorResult<()> { self.steps.run(5) }
+}
+
+// ---- execute_transaction_and_commit: the per-transaction storage transaction (C04: a skipped transaction changes nothing)
+pub enum ConflictPolicy { Fail, Overwrite }
+/// the block-level storage transaction: counts what per-transaction transactions committed into it
+pub struct BlockStorageTransaction<W> { pub inner: W, pub commits: Cell<u32>, pub committed_writes: Cell<u32>, pub commit_fails: bool }
+pub struct TxSt<'a, W> { parent: &'a BlockStorageTransaction<W>, pub writes: u32 }
+impl<W> BlockStorageTransaction<W> { pub fn write_transaction(&mut self) -> TxSt<'_, W> { TxSt { parent: self, writes: 0 } } }
+impl<'a, W> TxSt<'a, W> {
+    pub fn with_policy(self, _p: ConflictPolicy) -> Self { self }
+    pub fn commit(self) -> Result<(), StorageError> { self.parent.commits.set(self.parent.commits.get() + 1); if self.parent.commit_fails { return Err(StorageError) } self.parent.committed_writes.set(self.parent.committed_writes.get() + self.writes); Ok(()) }
+}
+pub struct ChainId(pub u64);
+pub struct ConsensusParams2 { pub chain: u64 }
+impl ConsensusParams2 { pub fn chain_id(&self) -> ChainId { ChainId(self.chain) } }
+pub struct MaybeCheckedTransaction { pub raw: u64 }
+impl MaybeCheckedTransaction { pub fn id(&self, c: &ChainId) -> TxId { TxId(self.raw ^ c.0) } }
+/// the block being built: a transaction list with Vec's push / len
+pub struct TxList { pub n: usize, pub last: Option<u64> }
+impl TxList { pub fn push(&mut self, t: Transaction) { self.n += 1; self.last = Some(match t { Transaction::Mint(m) => m.mint_amount }); } }
+pub struct PartialFuelBlock { pub header: PartialBlockHeader, pub transactions: TxList }
+pub struct BlockExecutorT { pub consensus_params: ConsensusParams2, pub exec_fails: bool, pub exec_calls: Cell<u32> }
+impl BlockExecutorT {
+//@ extract crates/services/executor/src/executor.rs BlockExecutor::execute_transaction_and_commit
+//@ end
+    // contract of execute_transaction: writes into the PER-TRANSACTION storage transaction it is handed (possibly before failing)
+    fn execute_transaction<W>(&self, tx: MaybeCheckedTransaction, tx_id: &TxId, _h: &PartialBlockHeader, _c: ContractId, _g: Word, _d: &mut ExecutionData, st: &mut TxSt<'_, W>, _m: &mut MemoryInstance) -> ExecutorResult<Transaction> {
+        self.exec_calls.set(self.exec_calls.get() + 1);
+        st.writes += 1;
+        if self.exec_fails { return Err(ExecutorError::Storage) }
+        Ok(Transaction::Mint(Mint { tx_pointer: TxPointer { height: BlockHeight(0), index: 0 }, input_contract: input::contract::Contract { utxo_id: UtxoId(Bytes32(0), 0), balance_root: Bytes32(0), state_root: Bytes32(0), tx_pointer: TxPointer { height: BlockHeight(0), index: 0 }, contract_id: ContractId(0) }, output_contract: output::contract::Contract { input_index: 0, balance_root: Bytes32(0), state_root: Bytes32(0) }, mint_amount: tx_id.0, gas_price: 0 }))
+    }
 }
 
 // =====================================================================================================================
@@ -348,6 +380,37 @@ fn c06_executed_transaction_is_recorded() {
     let mut k = 1; while k < 6 { if k < n && !(log[k] == log[k - 1] + 1 && log[k - 1] != fail_step) { ordered = false; } k += 1; }
     kani::assert(ordered, "[C06.executor-kernels.exec.steps-run-in-order-and-stop-at-the-first-failure]");
     kani::assert(st.inner.writes.get() == (if !fails && (fail_step == 0 || fail_step == 5 || (fail_step == 1 && !checks)) { 1 } else { 0 }), "[C06.executor-kernels.exec.id-recorded-exactly-once-after-inputs-and-outputs-are-settled]");
+}
+
+// ---- C04: a transaction whose execution fails (the producer skips it) leaves nothing behind: its storage transaction is
+// never committed into the block's, it is not added to the block and the transaction count does not move
+//@ harness kind=proof tier=quick prop=C04 timeout=600 extra="--default-unwind 3"
+#[cfg(kani)]
+#[kani::proof]
+fn c04_skipped_transaction_changes_nothing() {
+    let exec = BlockExecutorT { consensus_params: ConsensusParams2 { chain: kani::any() }, exec_fails: kani::any(), exec_calls: Cell::new(0) };
+    let mut st = BlockStorageTransaction { inner: Store { probe: TxId(0), present: Cell::new(false), fails: false, writes: Cell::new(0) }, commits: Cell::new(0), committed_writes: Cell::new(0), commit_fails: kani::any() };
+    let commit_fails = st.commit_fails;
+    let mut data = any_data();
+    // the caller (process_l2_txs) takes at most max_tx_count() - tx_count transactions, so the count cannot be at u16::MAX here
+    kani::assume(data.tx_count < u16::MAX);
+    let n0 = data.tx_count;
+    let mut block = PartialFuelBlock { header: PartialBlockHeader { height: BlockHeight(kani::any()) }, transactions: TxList { n: 0, last: None } };
+    let raw: u64 = kani::any();
+    let r = exec.execute_transaction_and_commit(&mut block, &mut st, &mut data, MaybeCheckedTransaction { raw }, kani::any(), ContractId(0), &mut MemoryInstance);
+    let ok = r.is_ok();
+    core::mem::forget(r);
+    kani::cover!(!ok && exec.exec_fails, "[C04.executor-kernels.skip.cover-skipped-transaction]");
+    kani::assert(ok == (!exec.exec_fails && !commit_fails), "[C04.executor-kernels.skip.included-iff-execution-and-commit-succeed]");
+    kani::assert(exec.exec_calls.get() == 1, "[C04.executor-kernels.skip.executed-exactly-once]");
+    if exec.exec_fails {
+        kani::assert(st.commits.get() == 0 && st.committed_writes.get() == 0, "[C04.executor-kernels.skip.failed-transactions-storage-changes-are-never-committed]");
+    }
+    if ok {
+        kani::assert(st.commits.get() == 1 && st.committed_writes.get() == 1 && block.transactions.n == 1 && block.transactions.last == Some(raw ^ exec.consensus_params.chain) && data.tx_count == n0 + 1, "[C04.executor-kernels.skip.included-transaction-is-committed-once-added-to-the-block-and-counted]");
+    } else {
+        kani::assert(st.committed_writes.get() == 0 && block.transactions.n == 0 && data.tx_count == n0, "[C04.executor-kernels.skip.skipped-transaction-changes-nothing]");
+    }
 }
 
 // Vacuity canaries
